@@ -155,6 +155,11 @@ def credWithSubject (E : Env) (d : Json) : Cred :=
     | _ => parseSubjOrg (jObj d "subjOrg")
   c.withSubject validOps E sv
 
+/-- documents of the main harness carry the decoded subjects since the deepening round (older corpus files do not: `shapeOK` as measured) -/
+def parseCredE (E : Env) (j : Json) : Cred := if jHas j "subjAuth" then credWithSubject E j else parseCred j
+
+def parsePresE (E : Env) (j : Json) : Pres := { parsePres j with vcs := (jArr j "vcs").map (parseCredE E) }
+
 def showOptTime (t : Option Time) : String := match t with | none => "nil" | some x => toString x
 
 def showDate (r : Res (Option Time)) : String :=
@@ -259,20 +264,20 @@ def step (st : St) (j : Json) : St × List String :=
       statusList := fun url => match (jArr j "lists").find? (fun l => jStr l "url" == url) with
         | some l => some { purpose := jStr l "purpose", bit := fun i => some ((jNats l "revoked").contains i) }
         | none => none }
-    let listed := walletList cfg P E (docs.map parseCred)
+    let listed := walletList cfg P E (docs.map (parseCredE E))
     (st, ["wallet:" ++ String.intercalate "," ((listed.filterMap (·.id)).toArray.qsort (· < ·)).toList])
   | "wallet-present" =>
     let docs := jArr j "creds"
     let all := docs.map sigFacts
     let P := cryptoOfK st.kinds (all.foldr (fun x acc => x.1 ++ acc) []) (all.foldr (fun x acc => x.2 ++ acc) [])
-    let r := walletValidate cfg P (envOf st j) (jInt j "created") (docs.map parseCred)
+    let r := walletValidate cfg P (envOf st j) (jInt j "created") (docs.map (parseCredE (envOf st j)))
     (st, [match r with | .ok _ => "ok" | .err _ => "err:invalid-credential" | .panic _ => "panic"])
   | "issue" =>
     -- the real issuer.Issue vs the model's `issue` (signing is a toy function here: only the outcome class is compared)
     match j.getObjVal? "template" with
     | .ok .null => (st, ["bad-op:issue-template"])
     | .ok tj =>
-      let u := parseCred tj
+      let u := parseCredE (envOf { st with asOf := jInt j "asOf" } j) tj
       let t : Template := { ctx := jStrs j "templateCtx", types := jStrs j "templateTypes", issuer := u.issuer, expires := u.expires,
                             subjects := u.subjects, shapeOK := u.shapeOK, claims := u.claims }
       let st' := { st with asOf := jInt j "asOf" }
@@ -285,7 +290,7 @@ def step (st : St) (j : Json) : St × List String :=
     match j.getObjVal? "doc" with
     | .ok .null => (st, ["unparseable"])
     | .ok d =>
-      let c := parseCred d
+      let c := parseCredE (envOf st j) d
       let (facts, cps) := sigFacts d
       let r := if jStr j "via" == "api" then apiVerifyVC cfg (cryptoOfK st.kinds facts cps) (envOf st j) (optBool j "option") c
                else if jStr j "via" == "sig" then runChecks (signatureChecks cfg (cryptoOfK st.kinds facts cps) (envOf st j) (optInt j "at") c) c
@@ -296,7 +301,7 @@ def step (st : St) (j : Json) : St × List String :=
     match j.getObjVal? "doc" with
     | .ok .null => (st, ["unparseable"])
     | .ok d =>
-      let vp := parsePres d
+      let vp := parsePresE (envOf st j) d
       let all := (sigFacts d) :: (jArr d "vcs").map sigFacts
       let facts := all.foldr (fun x acc => x.1 ++ acc) []
       let cps := all.foldr (fun x acc => x.2 ++ acc) []
